@@ -106,6 +106,8 @@ def random_circuit(rng, n_in=3, n_gates=5, types=GATES, max_fanin=3, p_const=0.0
     qbufs = []
     for k in range(n_bb):
         inst = nm(f"ff{k}")
+        if inst.startswith("\\"):
+            inst = f"ff{k}"  # escaped *instance* names are outside every property's domain
         pins_in = ["d"] + (["clk"] if bb_clk else [])
         bbs[inst] = ["ff", pins_in, ["q"]]
         for p in pins_in:
